@@ -104,6 +104,28 @@ def _norm(t):
 def loop_shape(cx, f, lp):
     """A counting loop (for or while) as (variable declaration, condition 'v>=0', step 'v--', body statements without the
     step).  The step of a while loop must be its last statement - stepping before the work shifts every index."""
+    # the count-down idiom for unsigned cursors: for (v = start; v-- > 0; ) body  -  the body sees start-1 ... 0
+    if lp["kind"] in ("ForStmt", "WhileStmt"):
+        cnd = strip(kids(lp)[2] if lp["kind"] == "ForStmt" else kids(lp)[0], casts=True)
+        inc_ = kids(lp)[3] if lp["kind"] == "ForStmt" else None
+        if cnd.get("kind") == "BinaryOperator" and cnd.get("opcode") in (">", "!=") and int_value(strip(kids(cnd)[1], casts=True)) == 0 \
+                and (inc_ is None or inc_["kind"] == "Null"):
+            u = strip(kids(cnd)[0], casts=True)
+            if u["kind"] == "UnaryOperator" and u.get("opcode") == "--" and u.get("isPostfix") and \
+                    strip(kids(u)[0], casts=True)["kind"] == "DeclRefExpr":
+                nm = strip(kids(u)[0], casts=True)["ref"]["name"]
+                body = kids(lp)[-1]
+                writes = [1 for l, r_, k_, n_ in inv.stores(f) if render(strip(l, casts=True)) == nm and any(y is n_ for y in walk(body))]
+                writes += [1 for y in walk(body) if y["kind"] == "UnaryOperator" and y.get("opcode") in ("++", "--") and
+                           render(strip(kids(y)[0], casts=True)) == nm]
+                decl = None
+                for x in walk(f.body):
+                    if x["kind"] == "VarDecl" and x.get("name") == nm and kids(x):
+                        decl = x
+                if decl is not None and not writes:
+                    stmts = kids(body) if body["kind"] == "CompoundStmt" else [body]
+                    return {"decl": decl, "var": nm, "cond": "%s>=0" % nm, "inc": nm + "--", "body": stmts, "start_adjust": -1,
+                            "test_before_step": True}
     ivars, guard = inv.induction_vars(cx, f, lp)
     if guard is None:
         return None
@@ -743,6 +765,7 @@ def rules(rep, m):
             if sp is None:
                 start_known = False
                 break
+            sp = sp + Poly.const(bshape.get("start_adjust", 0))
             kf = Facts().add_le0(Poly.sym("k").scale(-1), "k >= 0")
             kf = kf.add_le0(Poly.const(1) - (Poly.sym("k").scale(2) + Poly.const(parity)), "n >= 1")
             last_internal = Poly.sym("k") - Poly.const(1)          # floor(n/2) - 1 for n = 2k and n = 2k + 1
@@ -751,7 +774,9 @@ def rules(rep, m):
             start_ok = start_ok and okp
         if not start_known:
             start_ok = binit in ("%s/2-1" % sz, "%s/2" % sz, "%s-1" % sz)
-        cond_ok = bcond == "%s>=0" % vname and signed
+        cond_ok = bcond == "%s>=0" % vname and (signed or bshape.get("test_before_step"))
+        if bshape.get("start_adjust") and binit is not None:
+            binit = "%s%+d" % (binit, bshape["start_adjust"])
         inc_ok = binc in (vname + "--", "--" + vname)
         root_ok = cx.canon(kids(bc)[-1]) in (vname, "(uint64_t)%s" % vname) or render(strip(kids(bc)[-1], casts=True)) == vname
         rep.sample({"rule": "R-C18-6", "function": n, "build": [binit, bcond, binc], "size": size_b})
@@ -836,9 +861,12 @@ def rules(rep, m):
                     r6.ok()
         # the two loops are only guarded by the no-data test
         for lp_ in (build, extract):
-            chain = [a_ for a_ in inv.enclosing_chain(f, lp_) if a_["kind"] in ("IfStmt", "ForStmt", "WhileStmt")]
-            conds = [cx.canon(kids(a_)[0]) if a_["kind"] == "IfStmt" else "loop" for a_ in chain]
-            okg = all(re.fullmatch(r"\(\S+->(xa|ta) != NULL\)|\(\S+->count (>|>=) [012]\)", c_) for c_ in conds)
+            chain = [a_ for a_ in inv.enclosing_chain(f, lp_) if a_["kind"] in ("ForStmt", "WhileStmt")]
+            conds = inv.dominating_conditions(cx, f, lp_) + ["loop" for a_ in chain]
+            # only "there are data" may guard a phase: an array pointer is set, or the count is at least 0, 1 or 2
+            okg = all(re.fullmatch(r"\(\S+->(xa|ta) != NULL\)|!\(\S+->(xa|ta) == NULL\)|\(\S+->count (>|>=) [012]\)|"
+                                   r"!\(\S+->count (<|<=|==) [012]\)|\(\S+->count != 0\)", c_) and
+                      not re.fullmatch(r"\(\S+->count > 2\)|!\(\S+->count <= 2\)|!\(\S+->count == [12]\)", c_) for c_ in conds)
             if not okg:
                 rep.finding(r6, n, "guarded-phase", "%s runs a heapsort phase only under %s" % (n, conds), where=m.rel(loc(lp_)))
                 r6.fail()
@@ -923,6 +951,24 @@ def rules(rep, m):
             continue
         cx = FuncCtx(m, f)
         for d in walk(f.body):
+            if d["kind"] == "VarDecl" and re.fullmatch(r"double ?\[\d*\]", d.get("type") or "") and kids(d) and \
+                    kids(d)[0]["kind"] == "InitListExpr":
+                # a table of results, one per level searched
+                ws = [(k_, n_) for l, r_, k_, n_ in inv.stores(f) if strip(l, casts=True)["kind"] == "ArraySubscriptExpr" and
+                      strip(kids(strip(l, casts=True))[0], casts=True).get("ref", {}).get("id") == d["id"]]
+                if ws and all(k_ == "=" and inv.in_loop(f, n_) and any(a["kind"] in ("IfStmt", "WhileStmt") for a in inv.enclosing_chain(f, n_))
+                              for k_, n_ in ws):
+                    for i_, e_ in enumerate(kids(kids(d)[0])):
+                        ini = cx.resolve(e_)
+                        r8.instance("%s: %s[%d] starts from %s" % (f.name, d["name"], i_, render(ini)))
+                        if ini["kind"] in ("FloatingLiteral", "IntegerLiteral", "ImplicitValueInitExpr"):
+                            rep.finding(r8, f.name, "placeholder:" + d["name"], "%s: '%s[%d]' starts from the literal %s and is only "
+                                        "assigned when the search loop finds its interval; otherwise the literal is reported, a value "
+                                        "outside the data range" % (f.name, d["name"], i_, render(ini)), where=m.rel(loc(d)))
+                            r8.fail()
+                        else:
+                            r8.ok()
+                continue
             if d["kind"] != "VarDecl" or (d.get("type") or "") != "double" or not kids(d):
                 continue
             ws = [(k_, n_) for l, r_, k_, n_ in inv.stores(f) if strip(l, casts=True).get("ref", {}).get("id") == d["id"]]
@@ -1214,6 +1260,10 @@ def rules(rep, m):
             for i_, anc in enumerate(chain[:-1]):
                 if anc["kind"] == "IfStmt" and chain[i_ + 1] is not kids(anc)[0]:
                     out.append(kids(anc)[0])
+                if anc["kind"] == "WhileStmt" and chain[i_ + 1] is kids(anc)[1]:
+                    out.append(kids(anc)[0])
+                if anc["kind"] == "ForStmt" and chain[i_ + 1] is kids(anc)[4] and kids(anc)[2]["kind"] != "Null":
+                    out.append(kids(anc)[2])
             res = []
             for c_ in out:
                 res.append(c_)
@@ -1227,29 +1277,7 @@ def rules(rep, m):
                                 res.extend(cond_nodes(n_, depth + 1))
             return res
 
-        def thresholds(cn):
-            out = set()
-            for y in walk(cn):
-                if y["kind"] == "BinaryOperator" and y.get("opcode") in ("<", "<=", ">", ">="):
-                    a_, b_ = strip(kids(y)[0], casts=True), strip(kids(y)[1], casts=True)
-                    for u, v in ((a_, b_), (b_, a_)):
-                        if u["kind"] in ("ArraySubscriptExpr", "UnaryOperator") and mentions_weight(u) and \
-                                v["kind"] == "DeclRefExpr" and v["ref"]["id"] in tainted:
-                            out.add(cx.canon(v))
-            return out
-        shares = []
-        for l, r_, k_, n_ in inv.stores(f):
-            l0 = strip(l, casts=True)
-            if l0["kind"] != "DeclRefExpr" or r_ is None or k_ != "=" or not inv.in_loop(f, n_) or (l0.get("type") or "") != "double":
-                continue
-            ths = set()
-            for cn in cond_nodes(n_):
-                ths |= thresholds(cn)
-            if not ths:
-                continue
-            if len(ths) != 1:
-                raise AnalysisBroken("%s: %s is assigned under tests against several thresholds %s" % (fname, render(l0), sorted(ths)))
-            tc = next(iter(ths))
+        def parse_share(tc):
             mm = re.fullmatch(r"\((\d*\.?\d+) \* (\w+)\)|\((\w+) \* (\d*\.?\d+)\)|\((\w+) / (\d*\.?\d+)\)", tc)
             if not mm:
                 raise AnalysisBroken("%s: threshold %s of the weighted search is not a share of the total" % (fname, tc))
@@ -1261,9 +1289,84 @@ def rules(rep, m):
                 share, base = 1.0 / float(mm.group(6)), mm.group(5)
             if base not in totals:
                 raise AnalysisBroken("%s: threshold %s is not taken from the total weight" % (fname, tc))
-            shares.append((share, render(l0), r_, n_))
+            return share
+
+        def thresholds(cn):
+            """thresholds the running sums are compared with: ('scalar', canonical text) or ('array', decl id, index variable id)"""
+            out = set()
+            for y in walk(cn):
+                if y["kind"] == "BinaryOperator" and y.get("opcode") in ("<", "<=", ">", ">="):
+                    a_, b_ = strip(kids(y)[0], casts=True), strip(kids(y)[1], casts=True)
+                    for u, v in ((a_, b_), (b_, a_)):
+                        if not (u["kind"] in ("ArraySubscriptExpr", "UnaryOperator") and mentions_weight(u)):
+                            continue
+                        if v["kind"] == "DeclRefExpr" and v["ref"]["id"] in tainted:
+                            out.add(("scalar", cx.canon(v)))
+                        elif v["kind"] == "ArraySubscriptExpr" and mentions_weight(v):
+                            ba, ix_ = strip(kids(v)[0], casts=True), strip(kids(v)[1], casts=True)
+                            d_ = decls.get(ba["ref"]["id"]) if ba["kind"] == "DeclRefExpr" else None
+                            if d_ is not None and kids(d_) and kids(d_)[0]["kind"] == "InitListExpr" and ix_["kind"] == "DeclRefExpr" \
+                                    and not any(ba["ref"]["id"] == strip(kids(u_)[0], casts=True).get("ref", {}).get("id")
+                                                for u_ in [u] if u["kind"] == "ArraySubscriptExpr"):
+                                out.add(("array", d_["id"], ix_["ref"]["id"]))
+            return out
+        shares = []
+        level_cursors = {}
+        for l, r_, k_, n_ in inv.stores(f):
+            l0 = strip(l, casts=True)
+            if r_ is None or k_ != "=" or not inv.in_loop(f, n_) or (l0.get("type") or "") != "double":
+                continue
+            if l0["kind"] not in ("DeclRefExpr", "ArraySubscriptExpr"):
+                continue
+            ths = set()
+            for cn in cond_nodes(n_):
+                ths |= thresholds(cn)
+            if not ths:
+                continue
+            if len(ths) != 1:
+                raise AnalysisBroken("%s: %s is assigned under tests against several thresholds %s" % (fname, render(l0), sorted(ths)))
+            th = next(iter(ths))
+            if th[0] == "scalar":
+                if l0["kind"] != "DeclRefExpr":
+                    continue
+                shares.append((parse_share(th[1]), render(l0), r_, n_))
+            else:
+                # a table of levels searched in turn: result[i] belongs to level[i]
+                if l0["kind"] != "ArraySubscriptExpr" or strip(kids(l0)[1], casts=True).get("ref", {}).get("id") != th[2]:
+                    raise AnalysisBroken("%s: the result of the search over a table of levels is not stored at the level's index" % fname)
+                for i_, e_ in enumerate(kids(kids(decls[th[1]])[0])):
+                    shares.append((parse_share(cx.canon(e_)), "%s[%d]" % (render(strip(kids(l0)[0], casts=True)), i_), r_, n_))
+                level_cursors[th[2]] = n_
+        # a sweep that looks for the levels in turn must offer the interval in which it found one level to the next level too
+        for lid, node in level_cursors.items():
+            chain = inv.enclosing_chain(f, node)
+            hit = [a_ for a_ in chain if a_["kind"] in ("IfStmt", "WhileStmt") and
+                   any(thresholds(kids(a_)[0]) for _ in (0,))]
+            loops_ = [a_ for a_ in chain if a_["kind"] in ("ForStmt", "WhileStmt", "DoStmt")]
+            steps = [y for a_ in hit for y in walk(a_) if y["kind"] == "UnaryOperator" and y.get("opcode") in ("++", "--") and
+                     strip(kids(y)[0], casts=True).get("ref", {}).get("id") == lid]
+            steps += [n2 for l2, r2, k2, n2 in inv.stores(f) if strip(l2, casts=True).get("ref", {}).get("id") == lid and
+                      any(any(y is n2 for y in walk(a_)) for a_ in hit)]
+            r11.instance("%s: levels are searched in turn (cursor advanced on a hit: %s)" % (fname, bool(steps)))
+            if not steps:
+                r11.ok()
+                continue
+            retest = any(a_["kind"] == "WhileStmt" for a_ in hit)
+            if not retest and loops_:
+                iv_, g_ = inv.induction_vars(cx, f, loops_[-1])
+                # the interval cursor advances every round although the level cursor moved on: same interval not offered again
+                if iv_:
+                    rep.finding(r11, fname, "median:sweep-skips-level", "%s looks for the levels in turn and, having found one in an "
+                                "interval, moves on to the next interval before testing the next level: when two levels fall into "
+                                "the same interval (one sample holding more than a quarter of the total weight) the later ones are "
+                                "never found and keep their starting value" % fname, where=m.rel(loc(node)))
+                    r11.fail()
+                    continue
+            r11.ok()
         got = sorted({round(s_[0], 6) for s_ in shares})
         r11.instance("%s: shares searched %s" % (fname, got))
+        if not got:
+            raise AnalysisBroken("%s: the search over the running weight sums is not understood" % fname)
         if got != want_shares:
             rep.finding(r11, fname, "median:share", "%s searches the shares %s of the total weight; the median is the point at one half "
                         "(five-number summary: 0.25, 0.5, 0.75)" % (fname, got), where=m.rel(f.where))
